@@ -6,6 +6,7 @@ pub mod c02;
 pub mod c03;
 pub mod c04;
 pub mod c05;
+pub mod c06;
 pub mod c13;
 pub mod c14;
 pub mod c20;
@@ -17,6 +18,7 @@ pub fn dispatch(a: &Args) -> Option<Report> {
         "C03" => c03::run(a),
         "C04" => c04::run(a),
         "C05" => c05::run(a),
+        "C06" => c06::run(a),
         "C13" => c13::run(a),
         "C14" => c14::run(a),
         "C20" => c20::run(a),
